@@ -390,15 +390,20 @@ class World(object):
     def run(self, ops):
         for op in ops:
             self.do(op)
+        if self.coalesce:
+            self.do(("flush",))
         return self
 
+    def op_flush(self):
+        self.flush_segments()
+
     def do(self, op):
+        name = op[0]
+        if self.coalesce and name not in ("rx", "flush"):
+            self.do(("flush",))              # a segment is a run of consecutive deliveries; it ends here, in a step of its own
         self.step += 1
         self.ops_done.append(op)
-        name = op[0]
         try:
-            if self.coalesce and name != "rx":
-                self.flush_segments()        # a segment is a run of consecutive deliveries; it ends here
             getattr(self, "op_" + name)(*op[1:])
         finally:
             self.ctx = None
